@@ -6,7 +6,7 @@
     list of labels, [run] follows it while each label is enabled; the per-macroblock
     computation [f] and its value type are arbitrary).
     L2 (ConcWaitSignal): the waitFor / signal implementation of one row. *)
-From Coq Require Import List Arith ZArith.
+From Coq Require Import String List Arith ZArith.
 From Webp Require Import Conc.ConcRowSync Conc.ConcRowSyncProofs.
 From Webp Require Conc.ConcWaitSignal Conc.ConcWaitSignalProofs.
 From Webp Require Conc.ConcPartition Conc.ConcPartitionProofs.
@@ -91,6 +91,31 @@ Theorem C10_rowsync_maximal_runs_serial :
 Proof. exact rowsync_maximal_runs_serial. Qed.
 Print Assumptions C10_rowsync_maximal_runs_serial.
 
+(** No conflicting accesses: two macroblock steps enabled in the same reachable state
+    belong to different rows and are at least two columns apart, so the cells they
+    read ({x, x+1}) and write ({x}) in the shared context row are disjoint — no data
+    race on the shared top arrays in the model, and the atomic macroblock step is justified. *)
+Theorem C10_rowsync_no_conflict :
+  forall (V : Type) (v0 : V) (f : nat -> nat -> V -> V -> V -> V -> V) (mbW mbH : nat),
+  1 <= mbW ->
+  forall (n : nat) (sched : list label) (s : state V) (i j y x : nat) (tl l : V) (y' x' : nat) (tl' l' : V),
+  run V v0 f mbW mbH (init V v0 n) sched = Some s -> i <> j ->
+  nth_error (workers V s) i = Some (AtMB y x tl l) -> guard V mbW s y x = true ->
+  nth_error (workers V s) j = Some (AtMB y' x' tl' l') -> guard V mbW s y' x' = true ->
+  y <> y' /\ x' <> x /\ x' <> S x /\ x <> S x'.
+Proof. exact rowsync_no_conflict. Qed.
+Print Assumptions C10_rowsync_no_conflict.
+
+(** Every schedule is finite (no livelock): a run has at most
+    mbH*mbW + 2*mbH + n steps, so every run can be extended to a maximal one. *)
+Theorem C10_rowsync_terminates :
+  forall (V : Type) (v0 : V) (f : nat -> nat -> V -> V -> V -> V -> V) (mbW mbH : nat),
+  1 <= mbW ->
+  forall (n : nat) (sched : list label) (s : state V),
+  run V v0 f mbW mbH (init V v0 n) sched = Some s -> length sched <= mbH * mbW + 2 * mbH + n.
+Proof. exact rowsync_terminates. Qed.
+Print Assumptions C10_rowsync_terminates.
+
 (** Phase B records a row only when it is complete, in row order, with the serial values. *)
 Theorem C10_recorder_order :
   forall (V : Type) (v0 : V) (f : nat -> nat -> V -> V -> V -> V -> V) (mbW mbH : nat),
@@ -115,6 +140,32 @@ Theorem C10_check_trace_sound :
     tokens V s = serial_tokens V v0 f mbW mbH.
 Proof. exact check_trace_sound. Qed.
 Print Assumptions C10_check_trace_sound.
+
+(** Phase A / Phase B field disjointness, on the field sets regenerated from the
+    current source (tools/gosrc2v/phaseb.go): what the overlapped recorder writes is
+    disjoint from everything the row workers touch, and what the workers write from
+    everything the recorder touches, except the row-synchronised mbInfo.  The
+    workers do read the probabilities, and the recorder would write them if the
+    refresh were not skipped in overlapped mode. *)
+From WebpGen Require PhaseB.
+From Webp Require Conc.ConcPhaseB.
+Theorem C10_phaseB_disjoint :
+  (forall fld, In fld WebpGen.PhaseB.phaseB_writes ->
+     In fld WebpGen.PhaseB.phaseA_reads \/ In fld WebpGen.PhaseB.phaseA_writes ->
+     In fld Conc.ConcPhaseB.synchronised) /\
+  (forall fld, In fld WebpGen.PhaseB.phaseA_writes ->
+     In fld WebpGen.PhaseB.phaseB_reads \/ In fld WebpGen.PhaseB.phaseB_writes ->
+     In fld Conc.ConcPhaseB.synchronised).
+Proof. apply Conc.ConcPhaseB.phases_disjoint_spec. vm_compute. reflexivity. Qed.
+Print Assumptions C10_phaseB_disjoint.
+
+Theorem C10_phaseB_refresh_guard_matters :
+  WebpGen.PhaseB.refresh_guard_present = true /\
+  Conc.ConcPhaseB.mem "proba" WebpGen.PhaseB.phaseA_reads = true /\
+  Conc.ConcPhaseB.mem "proba" WebpGen.PhaseB.phaseB_writes = false /\
+  Conc.ConcPhaseB.mem "proba" WebpGen.PhaseB.phaseB_writes_serial_mode = true.
+Proof. vm_compute. repeat split. Qed.
+Print Assumptions C10_phaseB_refresh_guard_matters.
 
 (** L2: waitFor / signal of one row with its atomics, mutex and condition variable;
     any row width, any number of waiters with any lists of [needed] <= mbW, any schedule. *)
